@@ -1028,6 +1028,29 @@ func cmdCore(args []string) int {
 		fmt.Println("not a schemagrow case")
 		return 2
 	}
+	if *replay != "" && strings.HasSuffix(*replay, ".lcase") {
+		b, err := os.ReadFile(*replay)
+		if err != nil {
+			fmt.Println(err)
+			return 2
+		}
+		for _, l := range strings.Split(string(b), "\n") {
+			var sd int64
+			if n, _ := fmt.Sscanf(l, "deadline seed=%d", &sd); n == 1 {
+				fs, line := core.DeadlineScenario(sd)
+				fmt.Println(line)
+				for _, f := range fs {
+					fmt.Println("MONITOR C08:", f)
+				}
+				if len(fs) > 0 {
+					return 1
+				}
+				return 0
+			}
+		}
+		fmt.Println("not a deadline case")
+		return 2
+	}
 	if *replay != "" && strings.HasSuffix(*replay, ".ocase") {
 		b, err := os.ReadFile(*replay)
 		if err != nil {
@@ -1229,6 +1252,45 @@ func cmdCore(args []string) int {
 			res.Extra = map[string]any{}
 		}
 		res.Extra["schema_growth_scenarios"] = ng
+	}
+	if *prop == "C08" {
+		// the deadline path: a handler stalls beyond timeout and deadline, then returns
+		nd := 6
+		if *tier == "thorough" {
+			nd = 60
+		}
+		if *search {
+			nd *= 2
+		}
+		type dout struct {
+			fs   []string
+			line string
+		}
+		ch := make(chan dout, nd)
+		sem := make(chan struct{}, 6)
+		for i := 0; i < nd; i++ {
+			go func(i int) {
+				sem <- struct{}{}
+				defer func() { <-sem }()
+				fs, line := core.DeadlineScenario(*seed*100193 + int64(i))
+				ch <- dout{fs, line}
+			}(i)
+		}
+		seenD := false
+		for i := 0; i < nd; i++ {
+			o := <-ch
+			res.Evaluations++
+			if len(o.fs) > 0 && !seenD {
+				seenD = true
+				file := filepath.Join(*out, fmt.Sprintf("C08-seed%d-deadline.lcase", *seed))
+				os.WriteFile(file, []byte("# "+o.fs[0]+"\n"+o.line+"\n"), 0o644)
+				res.Failures = append(res.Failures, core.FailRec{Prop: "C08", Msg: o.fs[0] + " [" + o.line + "]", File: file})
+			}
+		}
+		if res.Extra == nil {
+			res.Extra = map[string]any{}
+		}
+		res.Extra["deadline_scenarios"] = nd
 	}
 	if *prop == "C14" {
 		// many goroutines, two tracers
